@@ -698,15 +698,31 @@ impl TableProvider for ForeignTableProvider {
 
             let codec: Arc<dyn LogicalExtensionCodec> = (&self.0.logical_codec).into();
 
-            let serialized_filters =
-                serialize_expr_list(filters.iter().copied(), codec.as_ref())?;
+            // A filter that cannot cross the boundary (e.g. one holding an outer
+            // reference or a subquery) cannot be pushed down: answer `Unsupported`
+            // for it instead of failing the whole query at planning time.
+            let transportable: Vec<usize> = (0..filters.len())
+                .filter(|i| {
+                    serialize_expr_list(std::iter::once(filters[*i]), codec.as_ref())
+                        .is_ok()
+                })
+                .collect();
+            let serialized_filters = serialize_expr_list(
+                transportable.iter().map(|i| filters[*i]),
+                codec.as_ref(),
+            )?;
 
             let pushdowns = df_result!(pushdown_fn(
                 &self.0,
                 serialized_filters.into_iter().collect()
             ))?;
 
-            Ok(pushdowns.iter().map(|v| v.into()).collect())
+            let mut result =
+                vec![TableProviderFilterPushDown::Unsupported; filters.len()];
+            for (answer, i) in pushdowns.iter().zip(transportable) {
+                result[i] = answer.into();
+            }
+            Ok(result)
         }
     }
 
